@@ -9,7 +9,7 @@ from .codec import MQTT_VARIANT_TO_SPEC, CLIENT_OUTBOUND
 EXPLANATION = ('Encoder tables extracted from MIR and compared with the MQTT 5 / 3.1.1 specification tables: packet-type and '
                'property constants, first bytes, the property set and wire type each client-sent packet writes, length '
                'function vs step writer agreement per field, slice getter vs length-prefix field agreement, field coverage '
-               'of the user-visible packet structs, bounded/resumable step processing, per-variant dispatch.')
+               'of the user-visible packet structs, bounded/resumable step processing, per-variant dispatch. Added in round 2: the ordered wire layout of the fixed steps of every writer against the specification layout, CONNECT flag / subscription-option / protocol-level bit layouts, property key vs source field agreement, and identity of the packet that is validated, alias-resolved and encoded.')
 ASSUMPTIONS = ['not decided: byte-level equality for arbitrary field values (UTF-8 content, VBI arithmetic over all integers) '
                'and equality of the produced stream across all output-buffer capacity sequences']
 
@@ -132,6 +132,9 @@ def run(ctx):
                     best = len(mm.group(1))
                     fld = codec.field_path(mm.group(1))
             writer_props.setdefault(var, []).append((kval, kname, fld, tuple(nx[:2]) if spec[1] in (mqtt5.UTF8, mqtt5.BIN) else tuple(nx[:1]), p))
+            # listed exception: the outbound Topic Alias is the resolver's decision, not a packet field (C17 decides that value)
+            okf = (var, kname, fld) == ('Publish', 'PROPERTY_KEY_TOPIC_ALIAS', 'outbound_alias_resolution.alias')
+            ctx.ob(okf or (fld is not None and codec.name_agrees(fld, spec[0])), '%s property %d (%s) is written from the field of that meaning (`%s`)' % (var, kval, spec[0], fld), 'prop-field|%s|%s' % (var, kname), loc=p.cs.loc())
     ctx.floor(nprops, 40, 'property pushes in client-sent packet writers')
 
     # ---------------------------------------------------------------- R-C02-3 length vs steps
@@ -304,6 +307,8 @@ def run(ctx):
     # ---------------------------------------------------------------- R-C02-8/9 length arithmetic
     from . import c02_len
     c02_len.run(ctx, w5, w3)
+    from . import c02_layout
+    c02_layout.run(ctx, w5, w3)
 
 
     # ---------------------------------------------------------------- R-C02-12 (added after seed C02-2)
